@@ -116,6 +116,13 @@ def import_cases():
     yield case("lookup-sub", "sub/lib.exps", ["@/inc1", "@/inc2"], "inc1sub")
     yield case("lookup-sub-rev", "sub/lib.exps", ["@/inc2", "@/inc1"], "inc2sub")
     yield case("lookup-not-source-dir", "lib.exps", ["@/inc2"], "inc2")
+    # names that start with a dot are not relative paths; directories are not files
+    yield case("lookup-dot-dir", ".hidden/lib.exps", ["@/inc1", "@/inc2"], "hidden2", extra={"inc2/.hidden/lib.exps": lib_text("hidden2"),
+                                                                                       "proj/src/.hidden/lib.exps": lib_text("hidden_src")})
+    yield case("lookup-dotdot-name", "..lib.exps", ["@/inc1"], "dd1", extra={"inc1/..lib.exps": lib_text("dd1"), "proj/src/..lib.exps": lib_text("dd_src")})
+    yield case("rel-directory", "./sub", [], None)
+    yield case("lookup-directory", "sub", ["@/inc1"], None)
+    yield case("abs-directory", "@/inc1", [], None)
     yield case("lookup-missing", "nothere.exps", ["@/inc1", "@/inc2"], None)
     yield case("lookup-none", "lib.exps", [], None)
     yield case("rel-missing", "./nothere.exps", ["@/inc1"], None)
